@@ -252,11 +252,26 @@ def _numeric_units(values):
                 yield "&#" + pfx + (fmt % v) + semi
 
 
+def continuations(name):
+    """Followers taken from the table: the next 1..3 characters of every longer name that starts with `name`
+    (a longest-prefix search has to back off from exactly these)."""
+    out = set()
+    for other in NAMES:
+        if other != name and other.startswith(name):
+            rest = other[len(name):]
+            for k in (1, 2, 3):
+                if len(rest) > k:          # a *proper* prefix of the longer name: the longer one must not match
+                    out.add(rest[:k])
+    return sorted(out)
+
+
 def shards(tier):
     quick = tier == "quick"
     out = []
     for i in range(4):
         out.append({"kind": "named", "part": i, "of": 4, "tree": True})
+    for i in range(2):
+        out.append({"kind": "named-continuations", "part": i, "of": 2})
     nparts = 24
     for i in range(nparts):
         out.append({"kind": "numeric", "part": i, "of": nparts, "stride": 8 if quick else 1})
@@ -309,6 +324,21 @@ def run_shard(desc, seed, tier):
                         n += 1
         acc.extra["named_units"] = n
         acc.exhaustive = True
+    elif kind == "named-continuations":
+        mine = NAMES[desc["part"]::desc["of"]]
+        n = 0
+        for name in mine:
+            for cont in continuations(name):
+                for tail in ("!", ";", "", "=", "z"):
+                    for ctx in ("data", "rcdata", "dq", "uq"):
+                        payload = "&" + name + cont + tail
+                        if not payload_ok(ctx, payload):
+                            continue
+                        case = {"kind": "ref", "ctx": ctx, "payload": payload, "tree": False}
+                        acc.add(case, check_case(case))
+                        n += 1
+        acc.extra["continuation_units"] = n
+        acc.exhaustive = True
     elif kind == "numeric":
         lo = 0x110001 * desc["part"] // desc["of"]
         hi = 0x110001 * (desc["part"] + 1) // desc["of"]
@@ -353,14 +383,25 @@ def run_shard(desc, seed, tier):
                 if ci % stride != off:
                     continue
                 text = "".join(chr(c) for c in ch)
-                for where in ("text", "attr"):
+                variants = [text]
+                if enc != "utf-8" and ci % 3 == 0:
+                    # every character followed by an alphanumeric / '=': a reference written without ';' would be misread
+                    variants += ["".join(chr(c) + "a" for c in ch), "".join(chr(c) + "=1" for c in ch[:16])]
+                for text in variants:
+                  for where in ("text", "attr"):
                     case = {"kind": "encode", "text": text, "encoding": enc, "where": where}
                     v = check_case(case)
-                    if v.status == "fail" and len(text) > 1:
-                        # pin the culprit characters one by one
-                        for c in text:
-                            c1 = {"kind": "encode", "text": c, "encoding": enc, "where": where}
-                            acc.add(c1, check_case(c1))
+                    if v.status == "fail" and len(text) > 3:
+                        # pin the culprit: halves, down to a few characters
+                        parts = [text[:len(text) // 2], text[len(text) // 2:]]
+                        while parts:
+                            t2 = parts.pop()
+                            c1 = {"kind": "encode", "text": t2, "encoding": enc, "where": where}
+                            v1 = check_case(c1)
+                            if v1.status == "fail" and len(t2) > 3:
+                                parts += [t2[:len(t2) // 2], t2[len(t2) // 2:]]
+                            else:
+                                acc.add(c1, v1)
                     else:
                         acc.add(case, v)
                         acc.count("encoded-codepoints:" + enc, len(text))
